@@ -63,13 +63,17 @@ func internDefs(text string) string {
 
 // fnv64 is the checksum used to compare long outputs inside Coq without shipping them as literals
 // (Adler-32 arithmetic: cheap on Coq's binary numbers); it mirrors Prelude.fnv64
+// checksum of long observed outputs: the two Adler sums plus a polynomial hash (multiplier 1000003 modulo the prime
+// 2147483629), so that exchanging equal-length pieces between two positions does not go unnoticed. The same function is
+// fnv64 of coq/Model/Prelude.v; the name is historical.
 func fnv64(b []byte) uint64 {
-	a, c := uint64(1), uint64(0)
+	a, c, h := uint64(1), uint64(0), uint64(7)
 	for _, x := range b {
 		a = (a + uint64(x)) % 65521
 		c = (c + a) % 65521
+		h = (h*1000003 + uint64(x) + 1) % 2147483629
 	}
-	return c*65536 + a
+	return h*4294967296 + c*65536 + a
 }
 
 // hxSum renders (length, checksum) of a byte string: Coq term of type (nat * N)
@@ -242,8 +246,13 @@ func coqFields(rv reflect.Value) []string {
 		case f.Type.Kind() == reflect.Bool:
 			s = "FBool " + cbool(fv.Bool())
 		case f.Type.Kind() == reflect.Float64:
-			m, _ := FloatMicro(fv.Float())
-			s = "FFloat " + cz(m)
+			if m, exact := FloatMicro(fv.Float()); exact {
+				s = "FFloat " + cz(m)
+			} else {
+				// not a multiple of 1e-6 (or not finite): outside the model's fixed-point numbers - rendered as a field value of
+				// another constructor, which no model answer equals, so that the case cannot pass by rounding
+				s = "FInt " + cz(m) // (the model holds an FFloat there: never equal)
+			}
 		default:
 			s = fmt.Sprintf("FUnknown %q", f.Type.String())
 		}
